@@ -40,9 +40,11 @@ inductive Act where
   | alloc (sz : Nat)
   | free (id : Nat)
   | go
+  | fail                            -- like `go`, but the pending `operator new` throws `std::bad_alloc`
   deriving DecidableEq, Repr
 
 inductive Res where
+  | failed (id : Nat)               -- `bad_alloc` left `alloc`: the frame never exists
   | paused (what : String)
   | done (id : Nat) (blk : Blk)
   | freed (id : Nat)
@@ -84,6 +86,15 @@ def stepGo (s : State) (t : Nat) : State × Res :=
                       frames := s.frames ++ [⟨fid, Blk.heap s.heap.next, sz, true⟩] } t Pc.idle,
        Res.done fid (Blk.heap s.heap.next))
 
+/-- the pending `operator new` throws.  Private block: nothing had happened.  Growth of the shared block (repaired
+code): the old block is gone, `_ptr = nullptr; _capacity = 0;`, and `_busy` is cleared before the exception leaves. -/
+def stepGoFail (s : State) (t : Nat) : State × Res :=
+  match s.pc t with
+  | Pc.needNew fid _ =>
+      (setPc { s with ptr := none, cap := 0, dangling := false, busy := false } t Pc.idle, Res.failed fid)
+  | Pc.needPriv fid _ => (setPc s t Pc.idle, Res.failed fid)
+  | _ => stepGo s t
+
 /-- the repaired `dealloc`: the trailer behind the frame decides -/
 def stepFree (s : State) (id : Nat) : State × Res :=
   match s.frames.find? (fun f => f.id == id) with
@@ -103,7 +114,11 @@ def step (s : State) (t : Nat) (a : Act) : State × Res :=
       | Act.alloc sz => stepBegin s t sz
       | Act.free id => stepFree s id
       | Act.go => (s, Res.skip)
-  | _ => stepGo s t
+      | Act.fail => (s, Res.skip)
+  | _ =>
+      match a with
+      | Act.fail => stepGoFail s t
+      | _ => stepGo s t
 
 def run (s : State) (sched : List (Nat × Act)) : State :=
   sched.foldl (fun s x => (step s x.1 x.2).1) s
@@ -180,6 +195,7 @@ def step (s : AState) (t : Nat) (a : Act) : AState :=
       | Act.alloc sz => stepBegin s t sz
       | Act.free id => stepFree s id
       | Act.go => s
+      | Act.fail => s
   | _ => stepGo s t
 
 def run (s : AState) (sched : List (Nat × Act)) : AState :=
